@@ -250,6 +250,25 @@ CORPUS = [
                                             [['LstSetParent', [1, 2], 3], {'src': ['children', 0]}]]),
     ('list shift, last element rejected', [T(0), T(1), T(2), T(3), ['SetChildren', 0, [1, 2]], ['SetParent', 3, 2],
                                            [['LstShift', PR, [1, 2], [3]], {'src': ['children', 0]}]]),
+    # a link between a DEEP descendant (two levels below the moved task) and the future parent chain
+    ('re-parenting below a task that a grandchild is linked with', [
+        T(1), T(2), T(3), T(4), T(5), ['SetParent', 1, 0], ['SetParent', 2, 1], ['SetLinks', PR, 2, [3]], ['SetParent', 0, 3],
+        ['ChAppend', 3, 0], ['SetChildren', 3, [0]], ['OpFloordiv', 3, [0]], ['ChInsert', 3, 0, 0], ['SetParent', 4, 3],
+        ['SetParent', 0, 4], ['ChAppend', 4, 0], ['SetChildren', 4, [0]], ['SetLinks', PR, 2, []], ['SetLinks', SU, 2, [3]],
+        ['SetParent', 0, 4], ['OpFloordiv', 4, [0]], [['LstSetParent', [0], 3], {'src': ['all_parents', 1]}], ['SetLinks', SU, 2, []],
+        ['SetParent', 0, 4]]),
+    ('re-parenting inside a WBS below a task that a grandchild is linked with', [
+        W, T(1), T(2), T(3), T(4), T(5), ['SetChildren', 0, [1, 4]], ['ChAppend', 1, 2], ['ChAppend', 2, 3], ['ChAppend', 4, 5],
+        ['OpShift', SU, 4, [3]], ['SetParent', 1, 5], ['ChAppend', 5, 1], ['ChInsert', 4, 0, 1], ['SetChildren', 5, [1]],
+        ['OpFloordiv', 4, [1]], ['LnRemove', PR, 3, 4], ['SetParent', 1, 5]]),
+    # insert with an index at the edge of the range, for a task that is already in the list / on wbs.roots
+    ('insert(L, existing child not last), insert(-L-1, existing child)', [
+        T(0), T(1), T(2), T(3), T(4), ['OpFloordiv', 0, [1, 2, 3]], ['ChInsert', 0, 3, 1], ['ChInsert', 0, -4, 1], ['ChInsert', 0, 3, 2],
+        ['ChInsert', 0, -4, 3], ['ChInsert', 0, 4, 1], ['ChInsert', 0, -5, 2], ['ChInsert', 0, 2, 1], ['ChInsert', 0, -3, 1],
+        ['ChInsert', 0, 3, 4], ['ChInsert', 0, 4, 4], ['ChInsert', 0, -5, 4], ['ChInsert', 0, -6, 4], ['ChInsert', 0, 5, 4]]),
+    ('roots.insert at the edge of the range', [
+        W, T(1), T(2), T(3), ['SetChildren', 0, [1, 2, 3]], ['ChInsert', 0, 3, 1], ['ChInsert', 0, -4, 2], ['ChInsert', 0, 3, 3],
+        ['ChInsert', 0, 2, 1], ['Facade', 'ch', 0], [['ChInsert', 0, 3, 2], {'facade': 0}], [['ChInsert', 0, -4, 3], {'facade': 0}]]),
     ('None arguments', [W, T(1), T(2), ['ChAppend', 0, None], ['ChRemove', 0, None], ['ChInsert', 0, 0, None], ['LnAppend', PR, 1, None],
                         ['LnRemove', SU, 1, None], ['WbsRemove', 0, None], ['SetChildren', 0, [None, 1, None, 1]], ['SetLinks', PR, 1, [None]],
                         ['ChMove', 0, [None], None, 1], ['SetParent', 1, None], ['SetEst', 1, -1], ['SetEst', 1, 8]]),
@@ -506,7 +525,7 @@ def run_property(ctx, spec):
     ctx.coverage.update(
         evaluations=checked,
         distinct_nontrivial=len(distinct),
-        rule='hand-written corpus (%d histories: witnesses of F1-F10, F25, boundary cases) + %d generated histories of 10-40 public '
+        rule='hand-written corpus (%d histories: witnesses of F1-F10, F25, the seeded changes C01-A and C15-B, boundary cases) + %d generated histories of 10-40 public '
              'calls over 4-8 task objects sharing 3-5 ids and 2-3 WBSs, 24 operation kinds in every syntactic variant, illegal '
              'arguments aimed at by a legality predicate evaluated on the current snapshot, ~15%% of the list calls through a '
              'facade obtained earlier; every call is judged from the implementation\'s actual pre-state (evaluations = calls judged); '
